@@ -2,7 +2,7 @@
   CelloProofs/Lemmas/OwnStep.lean — C05: every in-contract `step` of the world preserves the invariant and conserves
   identities; frame property of `step`.
 -/
-import CelloProofs.Lemmas.OwnWorld
+import CelloProofs.Lemmas.OwnTyped
 set_option linter.unusedVariables false
 set_option linter.unusedSimpArgs false
 
@@ -303,6 +303,110 @@ theorem step_ok {w : World} (hinv : Inv w) (op : Op) (hin : noKnownFinding w op 
         simp only [Option.some.injEq] at he
         exact inv_keys hinv (by rw [hl, he])
     · exact stepOK_bad hinv
+  | typed c t =>
+    simp only [step]
+    have hfreeNone : ¬ (c ≥ maxConts ∨ (lookup w.objs c).isSome = true) → lookup w.objs c = none := by
+      intro hfree
+      rcases hl : lookup w.objs c with _ | x
+      · rfl
+      · exfalso; apply hfree; right; simp [hl]
+    cases t with
+    | push wk =>
+      simp only [stepTyped]
+      split
+      · rename_i xs hl; simp [noKnownFinding, typedAtomic, hl] at hin
+      · rename_i xs hl
+        exact stepOK_seq hinv c .list .probe _ _ _ xs (oldToks_of_lookup hl) (cons_refused xs _ _)
+      · exact stepOK_bad hinv
+    | pushAt i wk =>
+      simp only [stepTyped]
+      split
+      · rename_i xs hl
+        have h1 : arrayPushAtWrong xs i = refused xs .indexOutOfBounds :=
+          arrayPushAtWrong_oob (by simpa [noKnownFinding, typedAtomic, hl] using hin)
+        rw [h1]
+        exact stepOK_seq hinv c .array .probe _ _ _ xs (oldToks_of_lookup hl) (cons_refused xs _ _)
+      · rename_i xs hl
+        obtain ⟨e, he⟩ := listPushAtWrong_spec xs i
+        rw [he]
+        exact stepOK_seq hinv c .list .probe _ _ _ xs (oldToks_of_lookup hl) (cons_refused xs _ _)
+      · exact stepOK_bad hinv
+    | set i wk =>
+      simp only [stepTyped]
+      split
+      · rename_i k xs hl
+        obtain ⟨e, he⟩ := seqSetWrong_spec xs i
+        rw [he]
+        exact stepOK_seq hinv c k .probe _ _ _ xs (oldToks_of_lookup hl) (cons_refused xs _ _)
+      · exact stepOK_bad hinv
+    | rem wk =>
+      simp only [stepTyped]
+      split
+      · rename_i k xs hl
+        exact stepOK_seq hinv c k .probe _ _ _ xs (oldToks_of_lookup hl) (cons_refused xs _ _)
+      · exact stepOK_bad hinv
+    | concat args =>
+      simp only [stepTyped]
+      split
+      · rename_i xs hl
+        have hg : allGood args = true := by simpa [noKnownFinding, typedAtomic, hl] using hin
+        have := cons_arrayConcatArgs_good w.next xs args hg
+        exact stepOK_seq hinv c .array .probe _ _ _ xs (oldToks_of_lookup hl) ⟨this.1, this.2.1⟩
+      · rename_i xs hl
+        exact stepOK_seq hinv c .list .probe _ _ _ xs (oldToks_of_lookup hl) (cons_listConcatArgs _ _ _)
+      · exact stepOK_bad hinv
+    | mset k v =>
+      simp only [stepTyped]
+      split
+      · rename_i mk kvs hl
+        by_cases hg : ∃ a b, k = .pay a ∧ v = .pay b
+        · obtain ⟨a, b, rfl, rfl⟩ := hg
+          rw [mapSetArgs_good]
+          exact stepOK_map hinv c mk _ _ (kvToks kvs) (oldToks_of_lookup hl)
+            (cons_mapSet mk w.next kvs a b (by simpa [Cont.toks] using inv_noraw hinv hl))
+            (keys_mapSet mk w.next kvs a b (inv_keys hinv hl)).1
+        · rw [mapSetArgs_refused hg]
+          exact stepOK_map hinv c mk _ _ (kvToks kvs) (oldToks_of_lookup hl) (cons_refusedKV kvs _ _) (inv_keys hinv hl)
+      · exact stepOK_bad hinv
+    | mrem wk =>
+      simp only [stepTyped]
+      split
+      · rename_i mk kvs hl
+        exact stepOK_map hinv c mk _ _ (kvToks kvs) (oldToks_of_lookup hl) (cons_refusedKV kvs _ _) (inv_keys hinv hl)
+      · exact stepOK_bad hinv
+    | newSeq k args =>
+      simp only [stepTyped]
+      split
+      · exact stepOK_bad hinv
+      · rename_i hfree
+        have hnone := hfreeNone hfree
+        split
+        · exact stepOK_seq hinv c k .probe _ _ _ [] (oldToks_of_none hnone) ⟨by simp [Conserves], fresh_mkFresh _ _⟩
+        · rename_i hng
+          cases k with
+          | array => simp [noKnownFinding, typedAtomic, hng] at hin
+          | list =>
+            simp only []
+            have h := cons_listNewRefused w.next args
+            apply stepOK_commit hinv
+            · exact h.2.1
+            · rw [oldToks_of_none hnone]; exact h.1
+            · intro mk kvs he; simp at he
+    | newMap k args =>
+      simp only [stepTyped]
+      split
+      · exact stepOK_bad hinv
+      · rename_i hfree
+        have hnone := hfreeNone hfree
+        split
+        · exact stepOK_map hinv c k _ _ [] (oldToks_of_none hnone)
+            (by simpa using cons_mapSetMany k (goodPairs args).1 w.next [] hpos (by simp))
+            (keys_mapSetMany k _ w.next [] (by simp [keys]))
+        · have h := cons_mapNewRefused k w.next args hpos
+          apply stepOK_commit hinv
+          · exact h.2
+          · rw [oldToks_of_none hnone]; exact h.1
+          · intro mk kvs he; simp at he
 
 /-! ### frame: an operation changes only the container it is applied to -/
 
@@ -311,7 +415,7 @@ def Op.target : Op → Nat
   | .new c _ => c | .newSeq c _ _ => c | .newMap c _ _ => c | .box c _ => c | .push c _ => c | .pushAt c _ _ => c
   | .pop c => c | .popAt c _ => c | .set c _ _ => c | .rem c _ => c | .resize c _ => c | .sort c => c
   | .concat c _ => c | .assign c _ => c | .copy c _ => c | .mset c _ _ => c | .mrem c _ => c | .del c => c
-  | .bassign c _ => c | .bref c _ => c | .read c => c
+  | .bassign c _ => c | .bref c _ => c | .read c => c | .typed c _ => c
 
 theorem commit_objs (w : World) (c : Nat) (isBox : Bool) (cont : Option Cont) (r : Res Unit) (touched : List Nat) :
     (commit w c isBox cont r touched).1.objs = objsAfter w.objs c cont := by
@@ -335,9 +439,18 @@ theorem commit_frame (w : World) (c : Nat) (isBox : Bool) (cont : Option Cont) (
     value afterwards -/
 theorem step_frame (w : World) (op : Op) {e : Nat} (h : e ≠ op.target) :
     lookup (step w op).1.objs e = lookup w.objs e := by
-  cases op <;> simp only [Op.target] at h <;> simp only [step] <;>
-    (repeat' split) <;> first
+  cases op with
+  | typed c t =>
+    simp only [Op.target] at h
+    simp only [step]
+    cases t <;> simp only [stepTyped] <;> (repeat' split) <;> first
       | rfl
       | exact commit_frame _ _ _ _ _ _ h
+  | _ =>
+    simp only [Op.target] at h
+    simp only [step]
+    (repeat' split) <;> first
+        | rfl
+        | exact commit_frame _ _ _ _ _ _ h
 
 end Cello.Own
